@@ -37,7 +37,7 @@ def validate_translator(cgv, texts, seed):
     return n
 
 
-def solve_kernel(text, lang, N, stats):
+def solve_kernel(text, lang, N, stats, require='roundtrip'):
     """-> (holds: bool, counterexample str|None, models used)"""
     s = [z3.BitVec('s%d' % i, 8) for i in range(N)]
     n = z3.BitVec('n', 8)
@@ -49,7 +49,7 @@ def solve_kernel(text, lang, N, stats):
     cells = [(z3.ULT(z3.BitVecVal(i, 8), n), s[i]) for i in range(N)]
     out_cells, models = mirsym.escape_symbolic(text, cells)
     ok, expands, emis = quoting.symbolic_decode(lang, out_cells)
-    good = z3.And(ok, z3.Not(expands), quoting.equals_input(emis, s, n, 16))
+    good = z3.And(ok, z3.Not(expands), quoting.equals_input(emis, s, n, 16)) if require == 'roundtrip' else ok
     # vacuity twin: the assertion is reachable with a non-empty input that really needs escaping
     t0 = time.time()
     r = solver.check(z3.And(good, z3.UGE(n, 1), z3.Or([b == quoting.Q for b in s[:1]])))
